@@ -316,7 +316,10 @@ def _check_main(run, P):
              "a whole-variable assignment stores a copy (both Python back ends)", minimum=2)
     run.do(_alias_rule, run, P)
 
-    f = edges(run, P)
+    run.do(_guard_reads, run, P)
+    f = run.do(edges, run, P)
+    if f is None:
+        f = P.func(f"{CB}._add_statement")
     run.do(_condition, run, P, f)
     run.do(_guard, run, P)
     run.do(_fresh, run, P)
@@ -510,6 +513,42 @@ def _cond_var(f):
                 if k.arg == "condition" and isinstance(k.value, ast.Name):
                     return k.value.id
     raise AnalysisError("_add_statement: condition= of the stored copy not found")
+
+
+def _guard_reads(run, P):
+    """What the guard reads is taken from the guard that is attached to the
+    statement - not from a list kept beside it."""
+    f = P.func(f"{CB}._add_statement")
+    # the expression stored as condition= of the statement
+    conds = set()
+    for x in ast.walk(f.node):
+        if isinstance(x, ast.keyword) and x.arg == "condition" and isinstance(x.value, ast.Name):
+            conds.add(x.value.id)
+    if not conds:
+        raise AnalysisError("_add_statement: condition= of the stored statement not found")
+    cv = sorted(conds)[0]
+    hits = []
+    for x in ast.walk(f.node):
+        src = None
+        if isinstance(x, ast.AugAssign) and isinstance(x.op, ast.BitOr):
+            src = x.value
+        elif isinstance(x, ast.Call) and isinstance(x.func, ast.Attribute) and x.func.attr == "update" and x.args:
+            src = x.args[0]
+        elif isinstance(x, ast.Assign) and isinstance(x.value, ast.BinOp) and isinstance(x.value.op, ast.BitOr):
+            src = x.value
+        if src is None:
+            continue
+        for y in ast.walk(src):
+            if isinstance(y, ast.Call) and (dotted(y.func) or "").split(".")[-1] == "get_variables" \
+                    and y.args and dotted(y.args[0]) == cv:
+                hits.append(x)
+    run.ob("C02.cond", f, hits[0] if hits else f.node, bool(hits),
+           construct=f"the read set of a new statement takes in get_variables({cv}), the guard "
+                     f"it is given",
+           why="a guard assembled from the stack of open blocks (if_ pushes the flag, else_ its "
+               "negation) reads every flag in it: names kept in a second list that only some of "
+               "the pushes feed leave a statement of an else block without an edge to the "
+               "assignment of its flag")
 
 
 def _condition(run, P, f):
